@@ -19,6 +19,9 @@ def main():
     rc = 0
     for sd in seeded:
         meta = json.loads((sd / "meta.json").read_text())
+        if meta.get("retired"):
+            print("%-28s retired: %s" % (sd.name, meta["retired"][:110]))
+            continue
         props = meta.get("caught_by") or [meta["property"]]
         if "--all-props" in sys.argv:
             props = sorted({json.loads(l)["id"] for l in (HERE / "properties.jsonl").read_text().splitlines() if l.strip()})
